@@ -341,6 +341,7 @@ Proof.
   - apply C_queue_send.
   - eapply C_neutral, n_send_sd.
   - destruct (get_inst i w); [apply C_put_inst|apply cext_refl].
+  - apply C_call_soon.
 Qed.
 
 (* every callback leaves the clock alone and arms timers only at or after the current instant *)
